@@ -297,22 +297,33 @@ CLAIMED = {
    technique="Coq proof (unfolding the include step under universally quantified state) + vm_compute instances + forest correspondence (partial)",
    ref="5 (C10)"),
  "C02": dict(
-   text="PARTIAL. Proved (Properties_C02.v, closed under the global context): soundness of the parser model with respect "
-        "to the documented grammar - the manual's BNF (settings with optional ; or , terminators, scalars incl. adjacent "
-        "strings, arrays of scalars, lists, groups, trailing and repeated commas as grammar.y allows) as mutually inductive "
-        "derivation relations over token lists; by mutual induction over the four parsing functions, for every fuel, "
-        "state and context: whatever p_value / p_agg / p_elems / p_settings / p_config accept is a derivation, hence a "
-        "successful config_read's token stream (C18 tokens, includes expanded) is derivable; duplicate names are rejected "
-        "when overrides are off; the messages; and, from the C01 development, the other direction with the denoted "
-        "tree for texts in the writer's canonical form (C02_canonical_accepted, C02_canonical_configuration: the "
-        "canonical token stream of any API-shaped tree is accepted and builds exactly that tree). NOT proved: "
-        "completeness and the denoted tree for arbitrary derivations, the first-error characterisation; they are tied on every run by exhaustive enumeration of all viable token-kind prefixes (to "
-        "length 5 quick / 7 thorough) with every one-token invalid extension, in several concrete spellings, overrides "
-        "off/on, against the real library and against a reference parser written from the manual.",
+   text="Proved (Properties_C02.v, closed under the global context), for the parser model on the scanner's located tokens "
+        "and carried to config_read: (1) the documented grammar - the manual's BNF (settings with optional ; or , "
+        "terminators, scalars incl. adjacent strings, arrays of scalars, lists, groups, trailing and repeated commas as "
+        "grammar.y allows) - as mutually inductive derivation relations over token lists and, equivalently "
+        "(C02_grammar_trees, C02_trees_grammar), as concrete syntax trees that spell a located token list; (2) soundness: "
+        "whatever p_value / p_agg / p_elems / p_settings / p_config accept is a derivation (mutual induction over the four "
+        "parsing functions, every fuel, state and context); (3) completeness and the denoted tree (ParseComplete.v, mutual "
+        "induction over the syntax trees): every derivation meeting the semantic conditions - one scalar type per array, "
+        "valid names, no name twice in a group unless overrides are on, in which case the earlier member is deleted and "
+        "the new one appended - is accepted in any position, whatever follows, with the fuel p_config provides, and the "
+        "configuration built is exactly the denoted one: settings, order, types, values, integer formats, concatenated "
+        "strings and the line and file of the name of every named setting; hence C02_accept_iff / C02_read_accept_iff "
+        "(a read succeeds exactly when its token stream is a semantically valid derivation) and C02_denotes / "
+        "C02_read_denotes; (4) semantic errors (ParseFail.v): a derivable text that breaks a semantic condition fails with "
+        "the message of the first offence in reading order (duplicate setting name / mismatched element type) at that "
+        "offence's line and file (C02_reject_semantic, C02_read_reject_semantic); (5) underivable token lists are not "
+        "accepted; the messages; evaluated examples (a nested derivation with overrides, a duplicate, a mismatch) on "
+        "which the parser is run. NOT proved: that a syntax error is reported at the first token that cannot continue a "
+        "derivation, and fuel sufficiency on syntactically rejected inputs; these are tied on every run by exhaustive "
+        "enumeration of all viable token-kind prefixes (to length 5 quick / 7 thorough) with every one-token invalid "
+        "extension, in several concrete spellings, overrides off/on, against the real library and against a reference "
+        "parser written from the manual.",
    note="grammar.c's LALR tables and bison's driver are modelled as a recursive-descent function performing the actions in "
-        "bison's order, not translated. Nesting beyond 1900 levels (YYMAXDEPTH) is outside the model. Known finding F4: a "
-        "mismatched STRING element is reported at the line of the following token.",
-   technique="Coq proof (grammar as inductive relations; parser soundness by mutual induction) + exhaustive-bounded correspondence (partial)",
+        "bison's order, not translated. Nesting beyond the parser stack limit (YYMAXDEPTH) is outside the theorems "
+        "(hypothesis max_nest <= NEST_LIMIT). Known finding F4: a mismatched STRING element is reported at the line of "
+        "the following token (the theorem states exactly that position).",
+   technique="Coq proof (grammar as inductive relations and syntax trees; parser soundness, completeness with denotation, and semantic-error characterisation by mutual induction) + exhaustive-bounded correspondence for syntax-error positions",
    ref="5 (C02)"),
 }
 
